@@ -400,14 +400,16 @@ def gen_table_case(rng, stats, mode="mixed", comp=None, small=True, nkeys=None, 
     inflight = bool(pool) and bs < 4096 and rng.chance(1, 3)
     if inflight:
         stats.bump("pooled_big_block_in_flight_then_tiny_blocks")
+    bigpos = rng.pick([min(1, len(adds) - 1), max(0, len(adds) - 2)])      # early, or right before a tiny LAST block (flushed by finish)
     for ai, k in enumerate(adds):
-        if inflight and ai == min(1, len(adds) - 1):
+        if inflight and ai == bigpos:
             v = bytes(rng.below(256) for _ in range(40000 + rng.below(30000)))
         elif inflight:
             v = bytes(rng.below(256) for _ in range(rng.below(5)))
         else:
             v = gen_val(rng, stats, effbs)
-        lines.append("w.add 1 %s %s" % (hx(k), hx(v)))
+        # in-flight shape: the adds and the finish reach the library back to back (pipelined, no protocol latency in between)
+        lines.append(("&" if inflight else "") + "w.add 1 %s %s" % (hx(k), hx(v)))
     lines.append("@f w.fin 1")
     lines.append("f.validate %s file=$f" % " ".join(a for a in cfg.split(" ") if not a.startswith(("level=", "pool="))))
     lines.append("w.prefix 1")
